@@ -160,7 +160,7 @@ CallerEdits == MapSet \/ MapDel \/ RnSet \/ RnDel \/ RecsAppend \/ RecSet \/ LAp
 Init == heap = <<>> /\ reg = [r \in Regs |-> 0] /\ out = "ok" /\ hist = <<>> /\ av = W0
 Makers   == Slice \/ Mask \/ Take \/ Project \/ Derive \/ DeriveConst \/ DerivePair \/ Do \/ Rename \/ Swap \/ Concat \/ AddRec \/ Copy \/ Minus \/ NoFilter \/ AddNone \/ ConcatOne
 Changers == SetCol \/ SetFrom \/ DelCol \/ Update \/ IAddRec \/ IAddTab \/ IAddNone \/ ISub
-Next == Len(hist) < MaxDepth /\ (New \/ Makers \/ Changers \/ ArgCalls \/ CallerEdits \/ Bind)       \* exhaustive runs: no successors are built beyond the bound
+Next == Len(hist) < MaxDepth /\ (New \/ Makers \/ Changers \/ ArgCalls \/ CallerEdits \/ (hist = <<>> /\ Bind))       \* exhaustive runs: no successors are built beyond the bound
 NextSim == New \/ Makers \/ Changers \/ ArgCalls \/ CallerEdits \/ Bind                              \* simulation: the depth of the run is the bound
 Bound == Len(hist) <= MaxDepth /\ \A o \in 1..Len(heap) : Len(heap[o].rows) <= MaxRowsC
 \* the directed history form: one table in r1, a table made from it, then any of the live tables changed in place or grown
